@@ -121,15 +121,21 @@ extern "C" fn collect_ip(ctx: *mut UnwindContext, arg: *mut core::ffi::c_void) -
 
 static SITE_CACHE: Mutex<Option<HashMap<Vec<usize>, String>>> = Mutex::new(None);
 
+/// "<repo>/src/" : prefix of the library's own source files in panic locations and backtraces
+fn repo_src() -> String {
+    format!("{}/src/", std::env::var("REPO_DIR").unwrap_or_else(|_| "/repo".to_string()).trim_end_matches('/'))
+}
+
 fn site_from_backtrace_text(bt: &str) -> String {
+    let marker = repo_src();
     // Lines look like:
     //   12: smartcalc::compiler::date::...
     //              at /repo/src/compiler/date.rs:79:36
     for line in bt.lines() {
         let l = line.trim_start();
         if let Some(rest) = l.strip_prefix("at ") {
-            if let Some(idx) = rest.find("/repo/src/") {
-                let p = &rest[idx + "/repo/".len()..];
+            if let Some(idx) = rest.find(&marker) {
+                let p = &rest[idx + marker.len() - "src/".len()..];
                 // drop the column
                 let mut parts = p.rsplitn(2, ':');
                 let _col = parts.next();
@@ -187,9 +193,10 @@ pub fn init() {
             // its site directly; a panic raised inside a dependency (chrono ...) is attributed
             // to the innermost library frame of the backtrace
             let site = match info.location() {
-                Some(l) if l.file().contains("/repo/src/") => {
+                Some(l) if l.file().contains(&repo_src()) => {
                     let f = l.file();
-                    let i = f.find("/repo/src/").unwrap() + "/repo/".len();
+                    let m = repo_src();
+                    let i = f.find(&m).unwrap() + m.len() - "src/".len();
                     format!("{}:{}", &f[i..], l.line())
                 }
                 _ => current_site(),
